@@ -73,7 +73,7 @@ func runCLIFaults(args []string) int {
 		maxRet := lay[k-1].Step * lay[k-1].N
 		mp := Mapping{B: drvBases[rnd.Intn(len(drvBases))], Scale: 1}
 		mp.B -= mp.B % lcmAll(lay)
-		now := maxRet + 500 + rnd.Int63n(1000)
+		now := maxRet + 2*lay[len(lay)-1].Step + 500 + rnd.Int63n(1000)
 		cmd.VerifNow = func() wt.Timestamp { return wt.Timestamp(mp.B + now) }
 		for _, cn := range cmds {
 			for _, ft := range faults {
